@@ -36,6 +36,8 @@ type VerifTrace struct {
 	mu     sync.Mutex
 	events []VerifEvent
 	chans  map[interface{}]int
+	subs   map[*TypeMuxSubscription]int // TypeMux subscriptions, numbered 1.. in order of first appearance
+	types  map[reflect.Type]int         // event types, registered with RegisterType
 	rng    uint64
 	yield  int // percent of points followed by a yield
 	sleep  int // percent of points followed by a short sleep
@@ -47,15 +49,15 @@ var (
 )
 
 // VerifAttach starts recording the synchronisation points of f.
-func VerifAttach(f *Feed, seed uint64, yieldPct, sleepPct int) *VerifTrace {
-	t := &VerifTrace{chans: map[interface{}]int{}, rng: seed*0x9E3779B97F4A7C15 + 1, yield: yieldPct, sleep: sleepPct}
+func VerifAttach(f interface{}, seed uint64, yieldPct, sleepPct int) *VerifTrace {
+	t := &VerifTrace{chans: map[interface{}]int{}, subs: map[*TypeMuxSubscription]int{}, types: map[reflect.Type]int{}, rng: seed*0x9E3779B97F4A7C15 + 1, yield: yieldPct, sleep: sleepPct}
 	verifTraces.Store(f, t)
 	atomic.AddInt32(&verifActive, 1)
 	return t
 }
 
 // VerifDetach stops recording for f and returns the trace.
-func VerifDetach(f *Feed) []VerifEvent {
+func VerifDetach(f interface{}) []VerifEvent {
 	v, ok := verifTraces.Load(f)
 	if !ok {
 		return nil
@@ -151,6 +153,63 @@ func verifPoint(f *Feed, point string, ch reflect.Value) {
 		}
 	}
 	t.events = append(t.events, VerifEvent{g, point, id, 0})
+	r := t.next()
+	t.mu.Unlock()
+	t.pause(r)
+}
+
+// RegisterType gives the dynamic type of example the id used in TypeMux trace records (Arg field).
+func (t *VerifTrace) RegisterType(example interface{}, id int) {
+	t.mu.Lock()
+	t.types[reflect.TypeOf(example)] = id
+	t.mu.Unlock()
+}
+
+// SubID returns the trace id of a TypeMux subscription (0 if it never appeared in the trace).
+func (t *VerifTrace) SubID(s *TypeMuxSubscription) int {
+	t.mu.Lock()
+	defer t.mu.Unlock()
+	return t.subs[s]
+}
+
+// NameSub numbers a subscription before its first trace record (used for subscriptions made on a stopped mux).
+func (t *VerifTrace) NameSub(s *TypeMuxSubscription) int {
+	t.mu.Lock()
+	defer t.mu.Unlock()
+	return t.subIDLocked(s)
+}
+
+func (t *VerifTrace) subIDLocked(s *TypeMuxSubscription) int {
+	id, ok := t.subs[s]
+	if !ok {
+		id = len(t.subs) + 1
+		t.subs[s] = id
+	}
+	return id
+}
+
+// verifMuxPoint records (goroutine, point, subscription id, type id) for the TypeMux given.
+func verifMuxPoint(mux *TypeMux, point string, s *TypeMuxSubscription, typ reflect.Type) {
+	if atomic.LoadInt32(&verifActive) == 0 {
+		return
+	}
+	v, ok := verifTraces.Load(mux)
+	if !ok {
+		return
+	}
+	t := v.(*VerifTrace)
+	g := VerifGoid()
+	t.mu.Lock()
+	id, ty := -1, -1
+	if s != nil {
+		id = t.subIDLocked(s)
+	}
+	if typ != nil {
+		if i, ok := t.types[typ]; ok {
+			ty = i
+		}
+	}
+	t.events = append(t.events, VerifEvent{g, point, id, ty})
 	r := t.next()
 	t.mu.Unlock()
 	t.pause(r)
